@@ -47,6 +47,8 @@ structure Config where
   canonical : Bool
   couplings : Bool
   flags : Flags
+  /-- the calls `dynamics.assign(particle_name, builder)` in order: (particle name, builder id). -/
+  dyn : List (String × String) := []
 deriving Repr, BEq, DecidableEq, Inhabited
 
 /-! ### small list utilities (kept elementary so that the lemmas are easy) -/
@@ -224,11 +226,35 @@ structure CGArgs where
   M : Int
 deriving Repr, BEq, DecidableEq, Inhabited
 
+/-- one call `builder(decay.parent.particle, variable_set)`: which builder, for which particle,
+with which `TwoBodyKinematicVariableSet` (mass symbols of the decaying edge and of the two children
+in helicity-child order, angular momentum, angle symbols). -/
+structure DynArgs where
+  builder : String
+  particle : String
+  mParent : String
+  m1 : String
+  m2 : String
+  ell : Option Int
+  phi : String
+  theta : String
+deriving Repr, BEq, DecidableEq, Inhabited
+
 structure NodeFactor where
   d : DArgs
   cg : List CGArgs
   coupling : Option String
+  dyn : Option DynArgs
 deriving Repr, BEq, DecidableEq, Inhabited
+
+/-- a `TwoBodyDecay` (the key of the `DynamicsSelector`): parent and children with their ids, and
+the interaction. -/
+structure DecayKey where
+  parent : Int × EState
+  child1 : Int × EState
+  child2 : Int × EState
+  inter : Inter
+deriving Repr, DecidableEq, Inhabited
 
 structure Term where
   prefactor : Int
@@ -236,8 +262,42 @@ structure Term where
   nodes : List NodeFactor
 deriving Repr, BEq, DecidableEq, Inhabited
 
-/-- `formulate_isobar_wigner_d`, `formulate_isobar_cg_coefficients`, coupling symbol for one node. -/
-def Transition.nodeFactor (cfg : Config) (t : Transition) (n : Nat) : NodeFactor :=
+/-- `TwoBodyDecay.from_transition` as a dictionary key. -/
+def Transition.decayKey (t : Transition) (n : Nat) : DecayKey :=
+  let (p, c1, c2) := t.decay n
+  ⟨(p, t.state p), (c1, t.state c1), (c2, t.state c2), t.inter n⟩
+
+/-- `get_invariant_mass_symbol`. -/
+def Transition.massName (t : Transition) (e : Int) : String := "m_" ++ joinIds (t.attached e)
+
+/-- the builder assigned to a particle name: the last `assign(name, builder)` wins; `none` is the
+initial `create_non_dynamic` (factor 1). -/
+def assignedBuilder (cfg : Config) (name : String) : Option String :=
+  match cfg.dyn.reverse.find? (·.1 == name) with
+  | some p => some p.2
+  | none => none
+
+/-- `_generate_kinematic_variable_set` + the builder call, for an assigned builder `b`. -/
+def Transition.dynArgs (t : Transition) (n : Nat) (b : String) : DynArgs :=
+  let (p, c1, c2) := t.decay n
+  let sp := t.state p
+  let suffix := t.boostSuffix c1
+  let ell : Option Int :=
+    match (t.inter n).ls with
+    | some (l2, _) => some (Int.ofNat (l2 / 2))
+    | none => if sp.spin2 % 2 == 0 then some (Int.ofNat (sp.spin2 / 2)) else none
+  ⟨b, sp.name, t.massName p, t.massName c1, t.massName c2, ell, "phi" ++ suffix, "theta" ++ suffix⟩
+
+/-- `__formulate_dynamics`: `1` when the decay is not a key of the selector, else the assigned
+builder applied to the particle and the variable set. -/
+def Transition.dynFactor (cfg : Config) (sel : List DecayKey) (t : Transition) (n : Nat) : Option DynArgs :=
+  if t.decayKey n ∈ sel then
+    (assignedBuilder cfg (t.state (t.decay n).1).name).map (t.dynArgs n)
+  else none
+
+/-- `formulate_isobar_wigner_d`, `formulate_isobar_cg_coefficients`, coupling symbol, dynamics for
+one node. -/
+def Transition.nodeFactor (cfg : Config) (sel : List DecayKey) (t : Transition) (n : Nat) : NodeFactor :=
   let (p, c1, c2) := t.decay n
   let sp := t.state p
   let s1 := t.state c1
@@ -253,13 +313,14 @@ def Transition.nodeFactor (cfg : Config) (t : Transition) (n : Nat) : NodeFactor
       | none => []
     else []
   let coupling := if cfg.couplings then some (couplingName cfg.flags (t.c03Node n)) else none
-  ⟨d, cg, coupling⟩
+  ⟨d, cg, coupling, t.dynFactor cfg sel n⟩
 
-/-- `__formulate_sequential_decay` for one graph, given the parity mapping and the prefactor rule. -/
-def Transition.term (v : Variant) (cfg : Config) (m : Mapping) (t : Transition) : Term :=
+/-- `__formulate_sequential_decay` for one graph, given the parity mapping, the prefactor rule and
+the keys of the dynamics selector. -/
+def Transition.term (v : Variant) (cfg : Config) (m : Mapping) (sel : List DecayKey) (t : Transition) : Term :=
   { prefactor := prefactorVal v cfg.flags m t.chain
     coeff := if cfg.couplings then none else some (coefficientName cfg.flags m t.chain)
-    nodes := t.nodes.map (t.nodeFactor cfg) }
+    nodes := t.nodes.map (t.nodeFactor cfg sel) }
 
 /-! ### identical-particle symmetrisation (qrules' combinatorics re-stated; compared, not trusted) -/
 
@@ -326,8 +387,8 @@ def groupByFirst {α κ} [DecidableEq κ] (key : α → κ) (l : List α) : List
 def cellsOf (ts : List Transition) : List (List (List Transition)) :=
   (groupByFirst Transition.spinKey ts).map fun g => groupByFirst Transition.topo g
 
-def cellTerms (v : Variant) (cfg : Config) (m : Mapping) (c : List Transition) : List Term :=
-  c.flatMap fun t => t.symmetrise.map (Transition.term v cfg m)
+def cellTerms (v : Variant) (cfg : Config) (m : Mapping) (sel : List DecayKey) (c : List Transition) : List Term :=
+  c.flatMap fun t => t.symmetrise.map (Transition.term v cfg m sel)
 
 def poolName (initial : List Int) (e : Int) : String :=
   if initial.contains e then "m_A" else "m" ++ toString e
@@ -340,36 +401,43 @@ def poolsOf (ts : List Transition) : List (String × List Int) :=
     t0.outerIds.map fun e =>
       (poolName t0.initialIds e, sortBy (· < ·) (dedupFirst (ts.map fun t => (t.state e).hel2)))
 
+/-- keys of `DynamicsSelector.__init__`: every node of every identical-particle combinatorics graph
+of every transition (e918528). -/
+def selectorKeys (ts : List Transition) : List DecayKey :=
+  ts.flatMap fun t => t.symmetrise.flatMap fun g => g.nodes.map g.decayKey
+
 /-- all graphs of a list of transitions, in the order the builder visits them. -/
 def graphsOf (c : List Transition) : List Transition := c.flatMap Transition.symmetrise
 
 /-- the coherent sums of a list of graphs: one per distinct per-id outer projection tuple, in
 order of first appearance (the `expressions` dict of the repaired builder). -/
-def byProjection (v : Variant) (cfg : Config) (m : Mapping) (gs : List Transition) :
+def byProjection (v : Variant) (cfg : Config) (m : Mapping) (sel : List DecayKey) (gs : List Transition) :
     List (List Int × List Term) :=
   (dedupFirst (gs.map Transition.outer)).map fun h =>
-    (h, (gs.filter fun g => g.outer = h).map (Transition.term v cfg m))
+    (h, (gs.filter fun g => g.outer = h).map (Transition.term v cfg m sel))
 
 /-- the writes `amplitudes[symbol] = …` of one (spin group, topology) cell.
 `own = true`: every graph is registered under the amplitude symbol of ITS OWN per-id outer
 projections (repaired builder). `own = false`: all graphs of the cell go under the symbol of the
 cell's first transition (the builder up to 043d8fb). -/
-def cellWrites (v : Variant) (own : Bool) (cfg : Config) (m : Mapping) (c : List Transition) :
+def cellWrites (v : Variant) (own : Bool) (cfg : Config) (m : Mapping) (sel : List DecayKey)
+    (c : List Transition) :
     List AmpDef :=
-  if own then (byProjection v cfg m (graphsOf c)).map fun e =>
+  if own then (byProjection v cfg m sel (graphsOf c)).map fun e =>
     { base := (c.headD default).baseName, idx := e.1, terms := e.2 }
-  else [{ base := (c.headD default).baseName, idx := (c.headD default).outer, terms := cellTerms v cfg m c }]
+  else [{ base := (c.headD default).baseName, idx := (c.headD default).outer, terms := cellTerms v cfg m sel c }]
 
 def impl (v : Variant) (own : Bool) (cfg : Config) (ts : List Transition) : Skeleton :=
   let m := registerAll cfg.flags (ts.map Transition.chain)
+  let sel := selectorKeys ts
   let groups := cellsOf ts
-  let writes := groups.flatMap fun g => g.flatMap (cellWrites v own cfg m)
+  let writes := groups.flatMap fun g => g.flatMap (cellWrites v own cfg m sel)
   let compA := groups.flatMap fun g => g.flatMap fun c => c.flatMap fun t =>
-    t.symmetrise.map fun gr => ("A_{" ++ gr.amplitudeName cfg ++ "}", gr.term v cfg m)
+    t.symmetrise.map fun gr => ("A_{" ++ gr.amplitudeName cfg ++ "}", gr.term v cfg m sel)
   let compI := groups.map fun g =>
     ("I_{" ++ ((g.headD []).headD default).label ++ "}",
-      if own then (byProjection v cfg m (g.flatMap graphsOf)).map (·.2)
-      else [g.flatMap (cellTerms v cfg m)])
+      if own then (byProjection v cfg m sel (g.flatMap graphsOf)).map (·.2)
+      else [g.flatMap (cellTerms v cfg m sel)])
   { writes := writes, compA := compA, compI := compI
     bases := (groupByFirst Transition.topo ts).map fun c => (c.headD default).baseName
     pools := poolsOf ts }
@@ -408,7 +476,15 @@ def Transition.specNode (cfg : Config) (t : Transition) (n : Nat) : NodeFactor :
                           ⟨(t.state c1).spin2, l1, (t.state c2).spin2, -l2, S, l1 - l2⟩]
         | none => []
       else []
-    coupling := if cfg.couplings then some (couplingName cfg.flags (t.c03Node n)) else none }
+    coupling := if cfg.couplings then some (couplingName cfg.flags (t.c03Node n)) else none
+    -- "× the assigned lineshape": the builder assigned to the decaying particle, as a function of the
+    -- invariant masses of the decaying state and of its two children, L and the helicity angles
+    dyn := (assignedBuilder cfg (t.state p).name).map fun b =>
+      ⟨b, (t.state p).name, t.massName p, t.massName c1, t.massName c2,
+        (match (t.inter n).ls with
+          | some (L, _) => some (Int.ofNat (L / 2))
+          | none => if J % 2 == 0 then some (Int.ofNat (J / 2)) else none),
+        "phi" ++ ang, "theta" ++ ang⟩ }
 
 def Transition.specTerm (v : Variant) (cfg : Config) (m : Mapping) (t : Transition) : Term :=
   { prefactor := prefactorVal v cfg.flags m t.chain
